@@ -63,7 +63,7 @@ type ItemSpec struct {
 	Code  string    `json:"code,omitempty"`
 	F     *Fields   `json:"fields,omitempty"`
 	Drift bool      `json:"fields_before_mutation_are_instead_set_AFTER_the_cell_was_made_and_without_Update,omitempty"` // the cell is made in the final state; afterwards the item changes to Pre and nobody asks the cell to update: it goes on showing the final text
-	Share string    `json:"is_the_same_object_as_the_other_items_marked,omitempty"` // items with the same mark are ONE object (a record reused per row): before each of their cells is made the object is set to that item's fields, and the cells made earlier are not told
+	Share string    `json:"is_the_same_object_as_the_other_items_marked,omitempty"`                                      // items with the same mark are ONE object (a record reused per row): before each of their cells is made the object is set to that item's fields, and the cells made earlier are not told
 	Pre   *Fields   `json:"fields_before_mutation,omitempty"`                                                            // typed by-pointer items: created with these, mutated to F (then Update) before the judged render
 	Ptr   bool      `json:"ptr,omitempty"`
 	Inner *ItemSpec `json:"inner,omitempty"`
@@ -282,6 +282,10 @@ func (s *ItemSpec) Make() Made {
 			D time.Duration
 			L NumLabel
 		}{time.Duration(s.Num) * time.Millisecond, MakeNumLabel(string(s.Str))}
+	case "fmterr":
+		m.Item = FmtErr{string(s.Str)}
+	case "fmtgo":
+		m.Item = &FmtGo{string(s.Str)}
 	case "numlabel":
 		m.Item = MakeNumLabel(string(s.Str))
 	case "floatlabel":
@@ -410,7 +414,7 @@ func (s *ItemSpec) TextWith(f *Fields) string {
 		return s.Inner.Text()
 	case "cellptr":
 		return s.Inner.TextWith(f) // the cell pointed at follows its item (see Make)
-	case "anonG", "anonPS", "anonSE", "tplhtml", "tpljs", "tplurl", "tplattr", "jsonnumber", "lookS", "lookSB", "lookW", "lookH", "cellcycle1", "cellcycle2", "twinnameStr", "fielder", "owneritem", "cellish", "bothmarshal", "textmarshal", "numlabel", "floatlabel":
+	case "anonG", "anonPS", "anonSE", "tplhtml", "tpljs", "tplurl", "tplattr", "jsonnumber", "lookS", "lookSB", "lookW", "lookH", "cellcycle1", "cellcycle2", "twinnameStr", "fielder", "owneritem", "cellish", "bothmarshal", "textmarshal", "numlabel", "floatlabel", "fmterr", "fmtgo":
 		return string(s.Str) // promoted GoString / String (String before Error); named string types read as their value
 	case "aggslice", "aggstringer", "aggarrmap":
 		// by-value aggregates which reach mutable state through an interior reference
@@ -578,7 +582,7 @@ func (r *R) WrapText(s string) ItemSpec {
 		// other carriers whose documented text form is s: named string types of other packages (html/template's
 		// "trusted" strings, read as their value like any named string), a named string of this package, unnamed
 		// struct types with a promoted GoString or String
-		return ItemSpec{K: Pick(r, []string{"tplhtml", "tplhtml", "tpljs", "tplurl", "tplattr", "mystr", "anonG", "anonPS", "anonSE", "lookS", "lookSB", "lookW", "lookH", "twinnameStr", "twinnameStr", "fielder", "owneritem", "cellish", "bothmarshal", "textmarshal", "numlabel", "floatlabel"}), Str: Q(s)}
+		return ItemSpec{K: Pick(r, []string{"tplhtml", "tplhtml", "tpljs", "tplurl", "tplattr", "mystr", "anonG", "anonPS", "anonSE", "lookS", "lookSB", "lookW", "lookH", "twinnameStr", "twinnameStr", "fielder", "owneritem", "cellish", "bothmarshal", "textmarshal", "numlabel", "floatlabel", "fmterr", "fmtgo"}), Str: Q(s)}
 	default:
 		return StrItem(s)
 	}
@@ -624,7 +628,7 @@ func (r *R) AnyItem(fam Fam, maxAtoms, depth int) ItemSpec {
 	case 4:
 		return ItemSpec{K: "bool", Num: int64(r.Intn(2))}
 	case 5:
-		return ItemSpec{K: Pick(r, []string{"mystr", "bytes", "err", "fmtstr", "aggslice", "aggstringer", "aggarrmap", "anonG", "anonPS", "anonSE", "tplhtml", "tpljs", "tplurl", "tplattr", "tplhtml", "jsonnumber", "ifacestruct", "ifacearr", "lookS", "lookSB", "lookW", "lookH", "lookNone", "cellcycle1", "cellcycle2", "twinnameStr", "twinnameNum", "twinnameBool", "fielder", "owneritem", "cellish", "bothmarshal", "textmarshal", "numlabel", "floatlabel", "boollabel", "durmicro", "labelslice", "durslice", "montharr", "errslice", "stringerstruct"}), Str: Q(r.Str(fam, maxAtoms)), Num: int64(r.Intn(3))}
+		return ItemSpec{K: Pick(r, []string{"mystr", "bytes", "err", "fmtstr", "aggslice", "aggstringer", "aggarrmap", "anonG", "anonPS", "anonSE", "tplhtml", "tpljs", "tplurl", "tplattr", "tplhtml", "jsonnumber", "ifacestruct", "ifacearr", "lookS", "lookSB", "lookW", "lookH", "lookNone", "cellcycle1", "cellcycle2", "twinnameStr", "twinnameNum", "twinnameBool", "fielder", "owneritem", "cellish", "bothmarshal", "textmarshal", "numlabel", "floatlabel", "boollabel", "durmicro", "labelslice", "durslice", "montharr", "errslice", "stringerstruct", "fmterr", "fmtgo"}), Str: Q(r.Str(fam, maxAtoms)), Num: int64(r.Intn(3))}
 	case 6:
 		return ItemSpec{K: Pick(r, []string{"slice", "map", "struct", "structptr", "complex", "complex64", "fmtfloat"}), Str: Q(r.Str(FAscii, 2)), Num: int64(r.Intn(9)), Flt: 1.5}
 	case 7:
@@ -876,3 +880,18 @@ func labelText(n int64) string {
 func (n NumLabel) String() string     { return labelText(int64(n)) }
 func (f FloatLabel) GoString() string { return labelText(int64(f)) }
 func (b BoolLabel) Error() string     { return "mäßig\nzweite Zeile 世界" }
+
+// FmtErr is an error that ALSO implements fmt.Formatter (as the error types of several well-known packages do), with
+// a %v form that differs from Error(): its documented text form is Error()'s result.
+type FmtErr struct{ V string }
+
+func (e FmtErr) Error() string { return e.V }
+func (e FmtErr) Format(s fmt.State, verb rune) {
+	fmt.Fprintf(s, "<wrong: Format(%c)> %s (with stack)", verb, e.V)
+}
+
+// FmtGo has GoString and Format.
+type FmtGo struct{ V string }
+
+func (e FmtGo) GoString() string              { return e.V }
+func (e FmtGo) Format(s fmt.State, verb rune) { fmt.Fprintf(s, "<wrong: Format>") }
